@@ -16,10 +16,10 @@ theorem failuresSinceReset_eq (ops : List Op) :
     failuresSinceReset ops = leadingFailures ops.reverse := by
   cases ops <;> rfl
 
-/-- pin: the strategy starts with delay 0 (the bodies of failure(), reset(), current_delay_sec and
-    _get_back_off_time are not pinned by their literals: they are translated and proved equal to the model
-    in Props/C18Gen.lean) -/
-theorem literal_pins : backoffInitLiterals = [0] := by decide
+/-- pin: a new strategy object reports delay 0 and has the default maximum (observed through the public API of a
+    freshly constructed object; the bodies of failure(), reset(), current_delay_sec and _get_back_off_time are
+    translated and proved equal to the model in Props/C18Gen.lean) -/
+theorem literal_pins : backoffInitDelay = 0 ∧ backoffInitMax = defaultMaxDelay := by decide
 
 /-- **C18 (strategy object).** For every sequence of failure()/reset() calls and every max_delay the
     strategy reports min(2^(n-1), max_delay) after n ≥ 1 failures since the last reset, and 0 after a
